@@ -690,6 +690,54 @@ def thr2(ctx: Ctx) -> None:
         ctx.R.undecided("THR-2", f"{q}: cannot see how the hosting thread is selected")
 
 
+NEW_REF_CAPI = {
+    # C-API functions that return a *new* (strong) reference, per the CPython documentation of 3.9-3.12
+    "PyFrame_GetGenerator", "PyFrame_GetBack", "PyFrame_GetCode", "PyFrame_GetLocals", "PyFrame_GetGlobals", "PyFrame_GetBuiltins", "PyFrame_GetVar", "PyFrame_GetVarString",
+    "PyThreadState_GetFrame", "PyObject_GetAttr", "PyObject_GetAttrString", "PyObject_Call", "PyObject_CallObject", "PyObject_Repr", "PyObject_Str", "PyObject_GetIter", "PyIter_Next",
+    "PyDict_Copy", "PyDict_Keys", "PyDict_Values", "PyDict_Items", "PySequence_GetItem", "PySequence_List", "PySequence_Tuple", "PyImport_ImportModule", "PyCode_GetCode", "PyCode_GetVarnames",
+    "PyCode_GetCellvars", "PyCode_GetFreevars", "PyObject_Dir", "PyObject_Type", "PyWeakref_GetRef", "Py_NewRef", "Py_XNewRef",
+}
+
+
+def cty1(ctx: Ctx) -> None:
+    """CTY-1 a C-API function called through ctypes.pythonapi that returns a new reference is declared with
+    restype = ctypes.py_object (ctypes then owns and releases that reference); declared as an integer / void pointer the
+    reference is never released: the object (and everything it keeps alive -- frames, generators, managers of the extraction
+    target) becomes immortal.  Today the package calls nothing through pythonapi."""
+    n = 0
+    example = ast.parse("f = ctypes.pythonapi.PyFrame_GetGenerator\nf.restype = ctypes.c_void_p\n")
+    ctx.R.positive_example("CTY-1", bool(_cty_findings(example)))
+    for mod in ctx.P.analysed_mods():
+        for node, name, rt in _cty_findings(mod.tree):
+            n += 1
+            ctx.R.fail("CTY-1", mod, node, f"`{name}` returns a new reference, but it is called through ctypes with restype `{rt}`: nobody releases that reference, so every call leaks one reference to an object of the "
+                       "observed program (it is never collected, its finalizers / __exit__ never run)", construct=f"ctypes.pythonapi.{name} restype {rt}")
+    if n == 0:
+        ctx.R.ok("CTY-1", "no new-reference C-API function is called through ctypes.pythonapi with a non-object restype")
+
+
+def _cty_findings(tree: ast.AST):
+    out = []
+    alias: Dict[str, Tuple[str, ast.AST]] = {}
+    for st in ast.walk(tree):
+        if isinstance(st, ast.Assign) and len(st.targets) == 1 and isinstance(st.value, ast.Attribute) and norm(st.value.value).endswith("pythonapi") and st.value.attr in NEW_REF_CAPI:
+            alias[norm(st.targets[0])] = (st.value.attr, st)
+    restype: Dict[str, str] = {}
+    for st in ast.walk(tree):
+        if isinstance(st, ast.Assign) and len(st.targets) == 1 and isinstance(st.targets[0], ast.Attribute) and st.targets[0].attr == "restype":
+            restype[norm(st.targets[0].value)] = norm(st.value)
+    for nm, (api, st) in alias.items():
+        rt = restype.get(nm, "c_int (the ctypes default)")
+        if not rt.endswith("py_object"):
+            out.append((st, api, rt))
+    for c in ast.walk(tree):
+        if isinstance(c, ast.Call) and isinstance(c.func, ast.Attribute) and norm(c.func.value).endswith("pythonapi") and c.func.attr in NEW_REF_CAPI:
+            rt = restype.get(norm(c.func), "c_int (the ctypes default)")
+            if not rt.endswith("py_object"):
+                out.append((c, c.func.attr, rt))
+    return out
+
+
 def idkey1(ctx: Ctx) -> None:
     """IDKEY-1 a container that outlives one call (module level, attribute of self, default argument) and is keyed by id(x)
     keeps x itself alive in the entry (as IdentityDict does: `_data[id(k)] = (k, v)`): otherwise x can be freed, its address
@@ -822,5 +870,5 @@ def _glob_findings(fn: ast.AST, name_of, mod: Optional[Mod] = None):
     return out
 
 
-C06 = [esc1, esc2, esc3, null1, glob1]
+C06 = [esc1, esc2, esc3, null1, glob1, cty1]
 C07 = [snap, thr1, thr2, null1]
